@@ -209,6 +209,10 @@ def valid_programs():
             out.append((f'local {el}[{n}] literal', f'empty @is_you() {{ {el}[] a = [{vals}]; write(a.length); {idx} }}'))
             out.append((f'local const {el}[{n}] literal', f'empty @is_you() {{ const {el}[] a = [{vals}]; write(a.length); {idx} }}'))
             out.append((f'global {el} a[{n}]', f'{el} a[{n}];\nempty @is_you() {{ write(a.length); }}'))
+            if n in (1, 3, 9):
+                out.append((f'global {el} a[{n}] written and passed', f'{el} a[{n}];\nempty fill({el}[] x) {{ x[0] = {lit[el](2)}; }}\n'
+                                                                       f'empty @is_you() {{ a[{n - 1}] = {lit[el](1)}; fill(a); write(a.length); }}'))
+                out.append((f'global {el}[{n}] literal written', f'{el}[] a = [{vals}];\nempty @is_you() {{ a[0] = {lit[el](1)}; write(a.length); }}'))
             out.append((f'local {el} a[{n}]', f'empty @is_you(int k) {{ {el} a[{n}]; {el} b[k]; write(a.length + b.length); }}'))
     for path in sorted(glob.glob(os.path.join(REPO, 'examples', '*.hid'))):
         out.append(('examples/' + os.path.basename(path), open(path).read()))
